@@ -24,6 +24,20 @@ def find_scope_map_builder(prog: Prog) -> Fn:
     return next(iter(cands.values()))
 
 
+def resolution_sites(prog: Prog, builder: Fn) -> list[tuple[Fn, ast.Call, bool]]:
+    """Every call of Column.to_source_columns in the package with: does its argument come from the scope map builder (directly or through
+    locals)?  A site that resolves qualifiers against a map of its own making does not agree with its siblings on what an alias denotes
+    (the builder returns the nodes already in the graph: a CTE read under an alias is the CTE's node, not a new object carrying the alias)."""
+    out = []
+    for f in prog.funcs.values():
+        for n in prog.walk_fn(f):
+            if isinstance(n, ast.Call) and isinstance(n.func, ast.Attribute) and n.func.attr == "to_source_columns" and n.args and f.name != "to_source_columns":
+                srcs = prog.value_sources(f, n.args[0])
+                from_builder = bool(srcs) and all(isinstance(v, ast.Call) and builder in prog.resolve_call(v, f) for v in srcs)
+                out.append((f, n, from_builder))
+    return out
+
+
 def classify_operand(prog: Prog, fn: Fn, e: ast.AST) -> tuple[str, Optional[ast.AST]]:
     """-> (kind, defining dict comprehension): alias | bare | qualified | other."""
     comp = e
@@ -70,6 +84,14 @@ def scope_map_rules(ctx: Ctx, rule: str) -> None:
     for need, why in (("alias", "an explicit alias"), ("bare", "the bare table name (normalised once: the default alias is normalised twice and cannot stand in for it)"), ("qualified", "the schema-qualified name")):
         ctx.ob(rule, f"scope-map:offers-{need}-key", need in order, where, f"`{u(rets[0])[:70]}`: a relation can be referred to by {why}")
     ctx.ob(rule, "scope-map:no-unknown-operand", "other" not in order, where, f"every operand of the merge is one of the three key kinds (found {order})", trivial=True)
+    sites = resolution_sites(prog, b)
+    ctx.floor("qualifier resolution sites (to_source_columns)", len(sites), 2)
+    for f, n, from_builder in sites:
+        ctx.touched(f)
+        ctx.ob(rule, f"scope-map:resolution-uses-the-builder:{f.owner}", from_builder, loc(f.mod, n),
+               f"`{u(n)[:70]}`: qualifiers are resolved against the map of `{b.name}`" if from_builder else
+               f"`{u(n)[:70]}` resolves qualifiers against a map that `{b.name}` did not build: what an alias denotes here differs from every other statement kind "
+               f"(a CTE read under an alias must be the CTE's node in the graph)")
     # operands iterate the table group in its own (FROM) order, without turning it into a set
     param = [p for p in b.params() if p != "self"][0]
     for kind, comp in kinds:
@@ -124,6 +146,9 @@ def alias_precedence_rules(ctx: Ctx, rule: str) -> None:
                 facts = flow(prog, add_read).facts_for(k)
                 explicit_only = any(("alias" in t and ("!=" in t or "is not" in t) and p) or ("explicit" in t and p) for t, p in facts)
     ctx.touched(add_read, tinit)
-    ctx.ob(rule, "scope-map:implicit-alias-competes", explicit_only or not default_is_bare, add_read.loc() if add_read else H.loc(),
+    # (the finding is identified together with the merge order it lives under: while aliases have the lowest priority the implicit alias can
+    # only displace other aliases; once aliases win, the twice-normalised implicit alias of "Tab1" takes the qualifier tab1 away from table tab1)
+    prio = "under-bare-names" if not ok else "over-bare-names"
+    ctx.ob(rule, f"scope-map:implicit-alias-competes:{prio}", explicit_only or not default_is_bare, add_read.loc() if add_read else H.loc(),
            "an un-aliased table must not enter the alias map under its bare name (Table.alias defaults to the table's own name and add_read creates a HAS_ALIAS edge for it), "
            "otherwise it competes with another relation's explicit alias on equal terms and dictionary order decides")
